@@ -27,6 +27,7 @@ type toCase struct {
 	Interactive bool   `json:"interactive,omitempty"`               // interactive task; the runner's stdin is a pipe that stays open and silent
 	Cond        bool   `json:"with_condition,omitempty"`            // the task also has a condition (that holds)
 	Earlier     bool   `json:"earlier_tolerated_failure,omitempty"` // allow_failure task whose first command exits non-zero before the overrun
+	AfterHook   bool   `json:"with_after_hook,omitempty"`           // the task whose command overruns also has an `after` command
 }
 
 func overrunCmd(shape, pidfile string, timeoutMs int) string {
@@ -117,6 +118,10 @@ func runTimeoutCase(a args, tcx toCase, idx int, confirm bool) (suspect string) 
 			want = append(want, "START")
 			wantErr = true
 		}
+		if tcx.AfterHook && tcx.Where == "command" {
+			// (whether the hook still runs is C06's question; the task is reported as failed either way)
+			t.After = []string{tok("after-hook")}
+		}
 		if tcx.Earlier && tcx.Where == "command" {
 			// a tolerated failure first: it must not make the later timeout tolerated as well
 			t.AllowFailure = true
@@ -171,6 +176,15 @@ func runTimeoutCase(a args, tcx toCase, idx int, confirm bool) (suspect string) 
 	dur := time.Since(t0)
 	lockedFinish(r.Finish)
 	got := strings.Fields(h.ReadFile(trace))
+	if tcx.AfterHook {
+		var g2 []string
+		for _, g := range got {
+			if g != "after-hook" {
+				g2 = append(g2, g)
+			}
+		}
+		got = g2
+	}
 	var pids []int
 	for _, f := range strings.Fields(h.ReadFile(pidfile)) {
 		if p, e := strconv.Atoi(f); e == nil {
@@ -268,6 +282,12 @@ func modeTimeout(a args) {
 			cases = append(cases, toCase{Kind: "overrun", Shape: shape, Where: "command", N: n, Pos: n - 1, TimeoutMs: 300, Variation: true},
 				toCase{Kind: "overrun", Shape: shape, Where: "command", N: n, Pos: 0, Allow: true, TimeoutMs: 300, Earlier: true},
 				toCase{Kind: "overrun", Shape: shape, Where: "command", N: n, Pos: n - 1, Allow: true, TimeoutMs: 300, Earlier: true, Variation: true})
+		}
+	}
+	for _, allow := range []bool{true, false} {
+		for n := 1; n <= 2; n++ {
+			cases = append(cases, toCase{Kind: "overrun", Shape: "sleep", Where: "command", N: n, Pos: n - 1, Allow: allow, TimeoutMs: 300, AfterHook: true},
+				toCase{Kind: "overrun", Shape: "busy", Where: "command", N: n + 1, Pos: 0, Allow: allow, TimeoutMs: 250, AfterHook: true, Variation: n == 2})
 		}
 	}
 	reps := a.n(1, 12)
